@@ -12,7 +12,15 @@ RULE = ('(a) compute_features on generated signals (as C01: off-band / narrow / 
         'band-amplitude filter; reference kernels with the same k), plus compute_symmetry(df_samples, sig) without the '
         'optional durations and rename_extrema_df(..., return_samples=False) compared with the table at harness level. '
         'All shape columns compared with the Coq model (bit-exact model, 1e-9 comparison; float32 cases oracle only at 1e-6; '
-        'shape-only tables through the same runner with an all-False detector mask). non-trivial = table with >= 3 rows')
+        'shape-only tables through the same runner with an all-False detector mask). '
+        'Independently of everything else ~30 % of the cases make the judged analysis on an ndarray object that was '
+        'first filled with another signal of the same length and analysed once with the same option objects, then '
+        'refilled in place (`prebuffer`); ~20 % pass every array of the case read-only (WRITEABLE flag cleared); ~20 % '
+        "make 1-2 rejected calls (mis-spelt key put into the caller's own find_extrema_kwargs / threshold_kwargs and "
+        "taken out again, invalid f_range, centre or burst method) on the case's own array and option objects directly "
+        'before the judged analysis; (the direct compute_shape_features stream: refilled buffer and read-only input '
+        'only); all oracles and the model comparison apply to the judged analysis unchanged (counters in the evidence). '
+        'non-trivial = table with >= 3 rows')
 ASSUMPTIONS = ['signals finite', 'band_amp compared with tolerance (numpy pairwise summation)',
                'float32 samples: voltage differences are correctly rounded single-precision results, compared at 1e-6']
 
@@ -31,7 +39,7 @@ def run_impl(c):
 
 
 def oracle(c, o):
-    return pipeline.oracle_shape(c, o)
+    return pipeline.with_context(c, pipeline.oracle_shape(c, o))
 
 
 def nontrivial(c, o):
